@@ -101,7 +101,8 @@ pub fn alphabet(c18: bool, reduced: bool) -> (Vec<Stmt>, Vec<Block>) {
             blocks.push(Block::Loop(v.into(), b));
         }
     }
-    for c in [lit(0), lt(name("a"), lit(2)), lt(name("i"), lit(1)), bin(BinOp::Eq, name("n"), lit(203)), name("Q")] {
+    // 1 - a is negative (and so true) while a holds the device value or 2
+    for c in [lit(0), lt(name("a"), lit(2)), lt(name("i"), lit(1)), bin(BinOp::Eq, name("n"), lit(203)), name("Q"), sub(lit(1), name("a"))] {
         blocks.push(Block::While(c));
     }
     (atoms, blocks)
@@ -304,13 +305,22 @@ pub fn run(id: &'static str, tier: Tier, seed: u64) -> i32 {
     if !c18 {
         total.merge(fixtures(&deadline));
     }
-    if c18 {
-        // vars() when the caller carries on after an error item whose call was made (a virtual
+    {
+        // (C18: vars(); C01: the rows) when the caller carries on after an error item (a virtual
         // signal that fails for one particular answer): explicit-state exploration over the answers
         use crate::e1::*;
         let sigs = vec![Sig::inp("P0", 16, 0), Sig::inp("P1", 16, 0), Sig::out("Q", 16), Sig::out("i", 16)];
         let rowv = |e: Expr| Stmt::Row(vec![Entry::Paren(e), Entry::Lit(0, Radix::Dec), Entry::X]);
-        let atoms = vec![rowv(name("i")), rowv(lit(1)), Stmt::Let("k".into(), lit(7)), Stmt::Let("i".into(), lit(5)), Stmt::Repeat(lit(2), vec![Entry::Paren(name("n")), Entry::Lit(0, Radix::Dec), Entry::X])];
+        // rowv(8 / Q) cannot be evaluated when the device answers Q = 0: an error item without a call
+        let atoms = vec![
+            rowv(name("i")),
+            rowv(lit(1)),
+            rowv(bin(BinOp::Div, lit(8), name("Q"))),
+            Stmt::Row(vec![Entry::Paren(name("i")), Entry::Paren(bin(BinOp::Rem, lit(9), name("Q"))), Entry::X]),
+            Stmt::Let("k".into(), lit(7)),
+            Stmt::Let("i".into(), lit(5)),
+            Stmt::Repeat(lit(2), vec![Entry::Paren(name("n")), Entry::Lit(0, Radix::Dec), Entry::X]),
+        ];
         let blocks = vec![Block::Loop("i".into(), lit(2)), Block::Loop("k".into(), lit(1))];
         let menu = vec![MenuItem::ans(vec![("Q".into(), V::Num(0)), ("i".into(), V::Num(202))]), MenuItem::ans(vec![("Q".into(), V::Num(2)), ("i".into(), V::Num(202))])];
         let mut cases = vec![];
@@ -325,6 +335,7 @@ pub fn run(id: &'static str, tier: Tier, seed: u64) -> i32 {
                 }
                 let mut c = Case::new(&format!("continue after a failing virtual signal, K={k} #{idx}"), prog, sigs.clone(), true, menu.clone(), menu.clone(), 14);
                 c.continue_after_call_errors = true;
+                c.continue_after_row_errors = true;
                 c.collect_vars = true;
                 cases.push(c);
             }
@@ -336,10 +347,23 @@ pub fn run(id: &'static str, tier: Tier, seed: u64) -> i32 {
                 st.witness("error_item_then_caller_carries_on");
             }
             let proj = Proj { input_values: true, expected: false, output: false, checked_kind: false, lines: false, vars: true, verdicts: false };
+            // What happens after an expression error is not laid down (an iterator may also stop
+            // there): once one has occurred, only rows that ARE yielded are compared
+            let after_expr_error = seen.reference.items[..k].iter().any(|i| matches!(i, RefItem::ExprErr(_)));
+            if after_expr_error {
+                st.witness("row_after_an_expression_error_item");
+                if !oi.is_row() {
+                    return None;
+                }
+            }
             item_mismatch(ri, oi, proj, None, seen.obs.vars.get(k)).map(|m| (classify(&m), format!("first difference at item {k}: {m}")))
         });
         let res = explore(cases, oracle, true, &deadline);
         let mut st = res.stats;
+        if !c18 {
+            // vars() is C18's: keep only what concerns the rows
+            st.violations.retain(|k, _| k != "vars");
+        }
         st.extra.insert("e1_part_states".into(), json!(st.states));
         st.extra.insert("e1_part_transitions".into(), json!(st.transitions));
         st.states = 0;
@@ -365,9 +389,8 @@ pub fn run(id: &'static str, tier: Tier, seed: u64) -> i32 {
         "permuted_or_bidirectional_signal_list",
     ];
     let mut required = required;
-    if c18 {
-        required.push("error_item_then_caller_carries_on");
-    }
+    required.push("error_item_then_caller_carries_on");
+    required.push("row_after_an_expression_error_item");
     let meta = CheckMeta {
         id,
         tier,
